@@ -280,6 +280,52 @@ func init() {
 		},
 		LevelNote: "Proved for every configuration, request and network behaviour: dialSendUDP / dialSendTCP try the servers in the order GetKDCs returned, return the first reply received and fail only after exactly len(kdcs) connection attempts (and terminate); sendTCP reads the complete 4-octet length header and the complete reply; sendToKDC uses TCP only when udp_preference_limit is 1, UDP first for requests up to the limit and TCP first otherwise, returns success exactly when the last transport used succeeded, surfaces a KRB-ERROR with the KDC's error code, and falls back to the other transport after a KRB-ERROR only for UDP's KRB_ERR_RESPONSE_TOO_BIG; GetKDCs returns every configured server once (set level) under keys 1..n.",
 	}
+	props["C05"] = &PropDef{
+		Funcs: []string{
+			`crypto/rfc3961\.(DES3EncryptData|DES3DecryptData|DES3EncryptMessage|DES3DecryptMessage|VerifyIntegrity)`,
+			`crypto/rfc3962\.(EncryptData|DecryptData|EncryptMessage|DecryptMessage)`,
+			`crypto/rfc8009\.(EncryptData|DecryptData|EncryptMessage|DecryptMessage|VerifyIntegrity|GetIntegityHash)`,
+			`crypto/rfc4757\.(EncryptData|DecryptData|EncryptMessage|DecryptMessage|VerifyIntegrity|HMAC|UsageToMSMsgType|deriveKeys)`,
+			`\(crypto\.[A-Za-z0-9]+\)\.(EncryptData|DecryptData|EncryptMessage|DecryptMessage|VerifyIntegrity)`,
+			`crypto/common\.(GetHash|GetIntegrityHash|getUsage|GetUsageKe|GetUsageKi)`,
+			`crypto.lemmaRoundTrip`, `crypto.lemmaCanaryRoundTrip`,
+		},
+		Kinds:           kinds(contractKinds...),
+		NeedObligations: true,
+		QuickTimeout:    40,
+		Assumptions: []string{
+			"the cipher modes are uninterpreted functions with their inverse laws: AES-CBC-CTS (aescts dependency), three-key triple-DES CBC and the RC4 key stream; HMAC and the hash functions are uninterpreted; that the Go libraries compute them is not gokrb5 code (trusted dependency contracts, including 'first use of a freshly created cipher' for rc4 / CBC objects)",
+			"key derivation is et_dk (proved for RFC 8009 / RFC 4757, composed over the uninterpreted DR for RFC 3961: C07 / C08)",
+			"crypto/rand.Read fills the confounder; 'two encryptions differ' is stated as: the ciphertext is the RFC function of the octets just drawn from crypto/rand (ghost lastRandom), the randomness itself is the operating system's",
+			"laws of sequences used by the round-trip lemma (truncating / cutting a concatenation) are axioms of the sequence theory; a vacuity canary (a false lemma over the same specification) must stay unprovable on every run",
+		},
+		NotDecided: []string{
+			"completeness of decryption at the code level (every ciphertext satisfying the RFC condition is accepted, i.e. no spurious error paths such as key-length checks) is shown only through the specification-level round trip; the code contracts are the soundness direction plus the exact encryption function",
+		},
+		LevelNote: "Proved for all six etypes, every key, usage and message: EncryptMessage returns exactly the RFC composition over the confounder drawn from crypto/rand - E(Ke, conf|msg|pad) | HMAC(Ki, conf|msg|pad) truncated (RFC 3961 5.3, des3 with zero padding to 8 octets, RFC 3962), C | HMAC(Ki, IV|C) (RFC 8009 5), HMAC-MD5 checksum | RC4(K3, conf|data) with the Microsoft usage mapping (RFC 4757 5); DecryptMessage returns the decryption of the body without the confounder; and (lemma proved from the specification) decrypting any RFC encryption under the same key and usage is accepted and returns the message (for des3 up to the prescribed zero padding). Hence library and RFC interoperate in both directions.",
+	}
+	props["C06"] = &PropDef{
+		Funcs: []string{
+			`crypto/rfc3961\.(DES3DecryptData|DES3DecryptMessage|VerifyIntegrity)`,
+			`crypto/rfc3962\.(DecryptData|DecryptMessage)`,
+			`crypto/rfc8009\.(DecryptData|DecryptMessage|VerifyIntegrity|GetIntegityHash)`,
+			`crypto/rfc4757\.(DecryptData|DecryptMessage|VerifyIntegrity|HMAC|UsageToMSMsgType|deriveKeys)`,
+			`\(crypto\.[A-Za-z0-9]+\)\.(DecryptData|DecryptMessage|VerifyIntegrity)`,
+			`crypto/common\.(GetHash|GetIntegrityHash|getUsage|GetUsageKe|GetUsageKi)`,
+			`crypto.DecryptMessage`, `crypto.DecryptEncPart`, `crypto.lemmaCanaryRoundTrip`,
+		},
+		Kinds:           kinds(contractKinds...),
+		NeedObligations: true,
+		QuickTimeout:    40,
+		Assumptions: []string{
+			"HMAC is uninterpreted; 'any flipped bit, other key or other usage is rejected' follows from the proved acceptance condition (the carried MAC equals the RFC MAC over what the body decrypts to under the usage-derived keys) together with the MAC assumption (distinct inputs or keys give distinct MACs), which is cryptographic and not proved",
+			"cipher modes and key derivation as in C05",
+		},
+		NotDecided: []string{
+			"key usages that alias by specification (RFC 4757 maps usages 3 and 9 to 8) are part of the RFC function and not distinguished",
+		},
+		LevelNote: "Proved for all six etypes, every key, usage and byte string: DecryptMessage returns without error only if the input is at least a confounder plus a MAC long and the MAC it carries equals the RFC MAC - HMAC(Ki, decrypted body) truncated at the end (RFC 3961 5.3 / RFC 3962), HMAC(Ki, IV | ciphertext body) truncated (RFC 8009), leading HMAC-MD5(K2, decrypted body) (RFC 4757) - computed with the keys derived from the presented key and usage; on every error no plaintext is returned (length 0). VerifyIntegrity of each family returns true only under that equality.",
+	}
 	props["C17"] = &PropDef{
 		Funcs: []string{
 			`(*gssapi.WrapToken).Marshal`, `(*gssapi.WrapToken).Unmarshal`, `(*gssapi.WrapToken).computeCheckSum`, `(*gssapi.WrapToken).Verify`,
